@@ -188,6 +188,10 @@ def cases(tier, seed):
             yield {'state': state, 'seed': 'tiny', 'mut': mlabel, 'bytes': mraw, 'ending': 'close'}
             if mlabel.endswith('-empty') or thorough:
                 yield {'state': state, 'seed': 'tiny', 'mut': mlabel, 'bytes': mraw, 'ending': 'reset'}
+        # the peer does not go quiet after the fault but sends one more stray PDU 6 s later: where the fault armed ARTIM, nothing
+        # re-arms it (AA-7), the connection is closed 10 s after the fault
+        for mlabel, mraw in (('type@0=57', b'\x57' + seeds(state)[0][1][1:]), ('tiny-0a-empty', bytes([0x0A, 0, 0, 0, 0, 0]))):
+            yield {'state': state, 'seed': seeds(state)[0][0] if mlabel.startswith('type') else 'tiny', 'mut': mlabel, 'bytes': mraw, 'ending': 'chatter'}
         for sname, raw in seeds(state):
             for k in (1, 5, 6, 7, len(raw) - 1, len(raw)):
                 yield {'state': state, 'seed': sname, 'mut': 'trunc-%d' % k, 'bytes': raw[:k], 'ending': 'reset'}
@@ -255,6 +259,8 @@ def run_case(case):
         hist.append(('close',))
     elif case['ending'] == 'reset':
         hist.append(('reset',))       # the peer goes away without reading what the provider answered: recv() fails
+    elif case['ending'] == 'chatter':
+        hist += [('tick', 6.0), ('bytes', bytes([0x0B, 0, 0, 0, 0, 2, 1, 2])), ('tick', 4.5)]
     else:
         hist += [('tick', 5.0), ('tick', 5.5)]
     viol = []
@@ -296,6 +302,8 @@ def run_case(case):
             told_gone = True
         if i <= n_pre or not ok_model or st['ev'][0] in ('idle', 'end') or 'state' not in st:
             continue
+        if case['ending'] == 'chatter' and i > n_pre + len(chunks) + (1 if rest else 0):
+            continue        # judged at the end (elapsed time since ARTIM was armed)
         ev = st['ev']
         if ev[0] == 'bytes':
             is_chunk = (i - n_pre - 1) < len(chunks)
@@ -332,6 +340,9 @@ def run_case(case):
     if fin['status'] == 'quiescent-end':
         if case['ending'] in ('close', 'reset') and (fin['state'] != 0 or fin['sock'] == 'open'):
             viol.append((sig + ':not-idle-after-close', 'after the peer closed: Sta%d socket %s (%s)' % (fin['state'] + 1, fin['sock'], where)))
+        if case['ending'] == 'chatter' and ok_model and m[2] and (fin['state'] != 0 or fin['sock'] == 'open'):
+            viol.append((sig + ':artim-rearmed', 'the fault left the provider with ARTIM armed; 6 s later the peer sent another stray PDU, and 10.5 s after the '
+                         'fault the provider is in Sta%d with the transport %s (%s)' % (fin['state'] + 1, fin['sock'], where)))
         if case['ending'] == 'silence' and fin['state'] in (1, 12):
             viol.append((sig + ':artim-not-honoured', 'still in Sta%d after 10.5 s of peer silence (%s)' % (fin['state'] + 1, where)))
         if fin['state'] == 0 and fin['sock'] == 'open':
